@@ -5,3 +5,4 @@ import XzVerif.Props.C11
 #print axioms Props.C11.C11_n_le_len
 #print axioms Props.C11.C11_writeMatch_never_panics
 #print axioms Props.C11.C11_ring_read_bounded
+#print axioms Props.C11.C11_classic_reader_outcomes
